@@ -6,8 +6,8 @@ Hand-written, branch for branch, of
     (utype/parser/options.py:389-480),
   * the error sites of `Rule.parse` (rule.py:1681-1749) and of the argument parsers
     `_parse_seq_args / _parse_tuple_args / _parse_map_args` (rule.py:1891-2034),
-  * `LogicalType.logical_parse` for `& | ^ ~` (rule.py:359-470, after the `fix:` commit that made the
-    `&` branch fall through to `context.raise_error()`),
+  * `LogicalType.logical_parse` for `& | ^ ~` (rule.py:359-470, after the `fix:` commits 592a37c — the `&`
+    branch falls through to `context.raise_error()` — and 4070fa5 — `^` tries every argument on the original input),
   * `ParserField.parse_value` (field.py:1059-1089), `BaseParser.parse_addition / data_first_parse /
     field_first_parse / __call__` (base.py:342-619).
 
@@ -20,6 +20,10 @@ error lists.  Every function returns the context it leaves behind *and* the outc
 code keeps using a context after an exception raised by `handle_error` was caught (`^`, `~`, `&`).
 
 Recursion through the type tree takes a fuel argument; theorems are `∀ fuel`.
+
+Line numbers in the comments: the `^` branch is cited at /repo b5a09b7 (rewritten by fix 4070fa5); the other
+citations are those of the tree at 7d07f06 — at b5a09b7 the same code sits at rule.py logical_parse +5,
+`Rule.parse` +6, argument parsers +11, options.py +2, field.py +2, base.py +1 (data-first) … +6 (field-first).
 
 Fragment (stated, generated accordingly by harness/c10.py): one accepted key per field (no aliases, so
 the alias-conflict branches base.py:455-459,546-556 are dead: dict keys are distinct), no
@@ -347,26 +351,29 @@ def parseAny (W : World) (rec : P) (ts : List Ty) (c : Ctx) (v : Val) : Ctx × R
     orElse (stage rec true .none v c3 ts) fun c4 =>                          -- :414-423
     finish c4 v                                                              -- :469
 
-/-- `^` loop (rule.py:434-450); state = (context, threaded value, `xor is not None`).
-`handle_error` sits inside the `try`: what it raises is caught and collected as a tmp error, and then
-neither `xor = None` nor `break` run. -/
-def oneLoop (rec : P) : Ctx → Val → Bool → List Ty → Ctx × Val × Bool
-  | c, v, x, [] => (c, v, x)
-  | c, v, x, t :: ts =>
+/-- `^` loop (rule.py:434-453, after the `fix:` commit 4070fa5): every argument is tried in an isolated
+context against the *original* input; state = the value of the one argument that accepted so far
+(`xor is not None`).  A second acceptance sets `xor = None`, hands `OneOfViolatedError` to
+`handle_error` — outside the `with`/`try`, so what it raises leaves `logical_parse` — and ends the loop. -/
+def oneLoop (rec : P) (v : Val) : Ctx → Option Val → List Ty → Ctx × Res (Option Val)
+  | c, r, [] => (c, .ok r)
+  | c, r, t :: ts =>
     match (rec t c.enter v).2 with
-    | .error e => oneLoop rec (c.collectTmp e.toErr) v x ts
+    | .error e => oneLoop rec v (c.collectTmp e.toErr) r ts          -- :441-443
     | .ok v1 =>
-      if !x then oneLoop rec c v1 true ts
-      else
-        match c.handleError { kind := .oneOf } with
-        | (c2, some ex) => oneLoop rec (c2.collectTmp ex.toErr) v1 true ts
-        | (c2, none) => (c2, v1, false)       -- xor = None; break
+      match r with
+      | none => oneLoop rec v c (some v1) ts                          -- :444-446
+      | some _ =>
+        match c.handleError { kind := .oneOf } with                   -- :447-453
+        | (c2, some ex) => (c2, .error ex)
+        | (c2, none) => (c2, .ok none)       -- xor = None; break
 
-def parseOne (W : World) (rec : P) (ts : List Ty) (c : Ctx) (v : Val) : Ctx × Res Val :=
-  if ts.any (exactTy W v) then (c, .ok v)                       -- :428-430
-  else
-    match oneLoop rec c v false ts with
-    | (c1, v1, x) => finish (if x then c1.clearTmp else c1) v1  -- :452-454, :469
+/-- `^` (rule.py:430-458, :474): no exact-type shortcut any more; exactly one argument must accept -/
+def parseOne (rec : P) (ts : List Ty) (c : Ctx) (v : Val) : Ctx × Res Val :=
+  andThen (oneLoop rec v c none ts) fun c1 r =>
+    match r with
+    | some res => finish c1.clearTmp res      -- :455-458 clear_tmp_error(); value = result
+    | none => finish c1 v
 
 /-- `~` loop (rule.py:456-467): the `handle_error` is inside the `try`, so whatever it raises ends the
 loop (`except Exception: break`). -/
@@ -384,7 +391,7 @@ def parseComb (W : World) (rec : P) (op : Comb) (ts : List Ty) (c : Ctx) (v : Va
   match op with
   | .all => andThen (allLoop rec c v ts) finish      -- :469 (reached since the fix)
   | .any => parseAny W rec ts c v
-  | .one => parseOne W rec ts c v
+  | .one => parseOne rec ts c v
   | .neg => finish (negLoop rec v c ts) v
 
 /-- `&` before the fix (`return value` right after the loop): kept for the negation witness -/
